@@ -338,6 +338,30 @@ def mp_runs(cases):
     return res
 
 
+def relayout(np, a, layout):
+    """the same values and shape as `a` in another memory layout"""
+    if layout == "C":
+        return np.ascontiguousarray(a)
+    if layout == "F":
+        return np.asfortranarray(a)
+    if layout == "T":                      # transposed view of a C-contiguous array
+        return np.ascontiguousarray(a.T).T
+    if layout == "strided":                # every 2nd / 3rd element of a larger C-contiguous array
+        big = np.zeros(tuple(2 * n for n in a.shape[:-1]) + (3 * a.shape[-1],), dtype=a.dtype)
+        view = big[tuple(slice(None, None, 2) for _ in a.shape[:-1]) + (slice(None, None, 3),)]
+        view[...] = a
+        return view
+    if layout == "negative":               # negative strides along every axis
+        rev = np.ascontiguousarray(a[tuple(slice(None, None, -1) for _ in a.shape)])
+        return rev[tuple(slice(None, None, -1) for _ in a.shape)]
+    if layout == "offset":                 # an interior window of a larger array
+        big = np.zeros(tuple(n + 3 for n in a.shape), dtype=a.dtype)
+        view = big[tuple(slice(1, n + 1) for n in a.shape)]
+        view[...] = a
+        return view
+    raise ValueError(layout)
+
+
 def hist_runs(cases):
     """histories of calls on ONE object: the same cKDTree_MP queried several times with equal-size point sets, the
     same Proj_MP called several times, kd_tree.get_neighbour_info with segments (several queries on one tree)"""
@@ -374,6 +398,44 @@ def hist_runs(cases):
                     x0, y0 = pyproj.Proj(c["proj"])(lons, lats)
                     calls.append(bool(np.array_equal(x1, xs) and np.array_equal(y1, ys)
                                       and np.allclose(x1, x0, rtol=1e-12, atol=1e-6) and np.allclose(y1, y0, rtol=1e-12, atol=1e-6)))
+            elif c["what"] == "proj_layout":
+                # the same logical coordinate arrays handed in with different memory layouts / dtypes: the result may
+                # depend on the VALUES at each index only
+                import pyproj
+                from pyproj import CRS
+                from pyproj.enums import TransformDirection
+                from pyresample._spatial_mp import Proj_MP
+                from pyresample.utils.proj4 import get_geodetic_crs_with_no_datum_shift
+                crs = CRS.from_user_input(c["proj"])
+                tr = pyproj.Transformer.from_crs(get_geodetic_crs_with_no_datum_shift(crs), crs, always_xy=True)
+                shape = tuple(c["shape"])
+                lons = rs.uniform(-60, 60, size=shape)
+                lats = rs.uniform(-70, 70, size=shape)
+                if c["inverse"]:
+                    lons, lats = tr.transform(lons, lats)
+                    lons, lats = np.asarray(lons), np.asarray(lats)
+                if c["dtype"] != "float64":
+                    lons, lats = np.round(lons).astype(c["dtype"]), np.round(lats).astype(c["dtype"])
+                direction = TransformDirection.INVERSE if c["inverse"] else TransformDirection.FORWARD
+                xs, ys = tr.transform(np.ascontiguousarray(lons, dtype=np.float64).ravel(),
+                                      np.ascontiguousarray(lats, dtype=np.float64).ravel(), direction=direction)
+                xs, ys = np.asarray(xs).reshape(shape), np.asarray(ys).reshape(shape)
+                a1, a2 = relayout(np, lons, c["layout"][0]), relayout(np, lats, c["layout"][1])
+                assert np.array_equal(a1, lons) and np.array_equal(a2, lats) and a1.shape == shape
+                x1, y1 = Proj_MP(c["proj"])(a1, a2, inverse=c["inverse"], nprocs=c["nprocs"], chunk=c["chunk"], schedule=c["kind"])
+                calls.append(bool(x1.shape == shape and y1.shape == shape and np.array_equal(x1, xs) and np.array_equal(y1, ys)))
+            elif c["what"] == "kdtree_layout":
+                import scipy.spatial as sp
+                from pyresample._spatial_mp import cKDTree_MP
+                data = rs.uniform(-1, 1, size=(c["ndata"], 3))
+                x = rs.uniform(-1, 1, size=(c["nx"], 3))
+                if c["dtype"] != "float64":
+                    data, x = data.astype(c["dtype"]), x.astype(c["dtype"])
+                d0, i0 = sp.cKDTree(np.ascontiguousarray(data, dtype=np.float64)).query(np.ascontiguousarray(x, dtype=np.float64), k=c["k"])
+                a1, a2 = relayout(np, data, c["layout"][0]), relayout(np, x, c["layout"][1])
+                assert np.array_equal(a1, data) and np.array_equal(a2, x)
+                d1, i1 = cKDTree_MP(a1, nprocs=c["nprocs"], chunk=c["chunk"], schedule=c["kind"]).query(a2, k=c["k"])
+                calls.append(bool(d1.shape == d0.shape and np.array_equal(d1, d0) and np.array_equal(i1, i0)))
             else:   # neighbour_info: nprocs=2 with segments (one tree, one query per segment) vs single process
                 from pyresample import geometry, kd_tree
                 rows, cols = c["shape"]
